@@ -667,6 +667,73 @@ fn run_no_stage() -> Result<u64, String> {
     Ok(vcheck::fp(&got))
 }
 
+// ---- processing elements of a shut-down module ---------------------------------------------
+
+struct Spy {
+    log: Log,
+}
+impl des::net::processing::ProcessingElement for Spy {
+    fn event_start(&mut self) {
+        lg(&self.log, "E.start".into());
+    }
+    fn event_end(&mut self) {
+        lg(&self.log, "E.end".into());
+    }
+    fn incoming(&mut self, m: Message) -> Option<Message> {
+        lg(&self.log, format!("E.in{}", m.header().id));
+        Some(m)
+    }
+}
+struct Guarded {
+    log: Log,
+}
+impl Module for Guarded {
+    fn stack(&self, mut s: des::net::processing::ProcessingStack) -> des::net::processing::ProcessingStack {
+        s.append(Spy { log: self.log.clone() });
+        s
+    }
+    fn handle_message(&mut self, m: Message) {
+        lg(&self.log, format!("G.msg{}", m.header().id));
+        if m.header().id == 1 {
+            current().shutdow_and_restart_in(hs(4));
+        }
+    }
+}
+struct Knocker;
+impl Module for Knocker {
+    fn at_sim_start(&mut self, _: usize) {
+        for (id, at) in [(1u16, 2u64), (2, 4), (3, 8)] {
+            send_in(Message::default().id(id), "out", hs(at));
+        }
+    }
+}
+/// A module with a processing element shuts down at 2 and is back at 6; a message arrives at 4:
+/// nothing of the module runs for it, its processing elements included.
+fn run_guarded() -> Result<u64, String> {
+    let got = quiet_catch(move || {
+        let log: Log = Default::default();
+        let mut sim = Sim::new(());
+        sim.node("g", Guarded { log: log.clone() });
+        sim.node("k", Knocker);
+        sim.gate("k", "out").connect(sim.gate("g", "in"), None);
+        let r = Builder::seeded(1).quiet().max_time(100.0.into()).build(sim.freeze()).run();
+        drop(r);
+        let g = log.lock().unwrap().clone();
+        g
+    })
+    .map_err(|m| format!("panicked: {m}"))?;
+    let inside: Vec<&String> = got.iter().filter(|e| e.ends_with("@3") || e.ends_with("@4") || e.ends_with("@5")).collect();
+    if !inside.is_empty() {
+        return Err(format!("module with a processing element, down from 2 until 6, message arriving at 4: {inside:?} ran during the down-time (full log {got:?})"));
+    }
+    let msgs: Vec<&String> = got.iter().filter(|e| e.starts_with("G.msg") || e.starts_with("E.in")).collect();
+    let exp = ["E.in1@2", "G.msg1@2", "E.in3@8", "G.msg3@8"];
+    if msgs.iter().map(|s| s.as_str()).collect::<Vec<_>>() != exp {
+        return Err(format!("module with a processing element, down from 2 until 6: messages seen {msgs:?}, expected {exp:?}"));
+    }
+    Ok(vcheck::fp(&got))
+}
+
 struct C09;
 
 impl Property for C09 {
@@ -675,7 +742,7 @@ impl Property for C09 {
     }
     fn rule(&self, tier: Tier) -> String {
         format!(
-            "timelines in half-second units: first shutdown at {{4,6}} x restart delay {{none,0,2,5}} x requested from {{handler, task}} x old task deadline {{2,4,6,7,11,30}} x new task sleep {{1,3}} x second shutdown {{none, +2 no restart, +2 restart 2, +3 restart 0}}              x message route {{to the victim, through a transit gate of the victim}} x {{direct, over a latency channel}} x restart requested by delay or (direct case) by absolute time x every set of up to {} arrival times from {{1,3,4,5,6,8,9,11,13,16}}; plus shutdown requested in each of 3 start stages x restart {{none,0,3}}; plus the restart of a module that declares no start stage (never started, not by the restart either); plus send_in issued before the shutdown for instants before, inside and after the down-time (restart none/3/9/30: a send falling due while its sender is down is dropped, the others arrive on time); plus a second shutdown requested by the restarted incarnation inside its restart event (each of its 3 start stages x restart {{none,0,2,5}}: the restart's stages complete, then inert, second reset, third incarnation on time); plus a module whose every incarnation runs one script (N tasks polled at start and after a sleep, N values drained by one task, N tasks spawned by a handler; N in {{1,2,3,59..63,70,128,129,200}}, restart delay {{0,1,1500}} ms): the restarted incarnation's log, relative to its start, must equal the fresh one's;              oracle: expectation computed from the plan: no callback, task step or timer of the victim inside an inert window, messages inside it dropped (also through its transit gate) and never delivered later, reset once per shutdown, start stages once at exactly the restart time, old tasks never resume, task captures dropped, peer receives exactly the echoes;              an event at exactly the shutdown/restart instant is a tie and accepted either way; non-trivial = timeline with a message or deadline strictly inside an inert window",
+            "timelines in half-second units: first shutdown at {{4,6}} x restart delay {{none,0,2,5}} x requested from {{handler, task}} x old task deadline {{2,4,6,7,11,30}} x new task sleep {{1,3}} x second shutdown {{none, +2 no restart, +2 restart 2, +3 restart 0}}              x message route {{to the victim, through a transit gate of the victim}} x {{direct, over a latency channel}} x restart requested by delay or (direct case) by absolute time x every set of up to {} arrival times from {{1,3,4,5,6,8,9,11,13,16}}; plus shutdown requested in each of 3 start stages x restart {{none,0,3}}; plus a module with a processing element that is down while a message arrives (the element must not see it); plus the restart of a module that declares no start stage (never started, not by the restart either); plus send_in issued before the shutdown for instants before, inside and after the down-time (restart none/3/9/30: a send falling due while its sender is down is dropped, the others arrive on time); plus a second shutdown requested by the restarted incarnation inside its restart event (each of its 3 start stages x restart {{none,0,2,5}}: the restart's stages complete, then inert, second reset, third incarnation on time); plus a module whose every incarnation runs one script (N tasks polled at start and after a sleep, N values drained by one task, N tasks spawned by a handler; N in {{1,2,3,59..63,70,128,129,200}}, restart delay {{0,1,1500}} ms): the restarted incarnation's log, relative to its start, must equal the fresh one's;              oracle: expectation computed from the plan: no callback, task step or timer of the victim inside an inert window, messages inside it dropped (also through its transit gate) and never delivered later, reset once per shutdown, start stages once at exactly the restart time, old tasks never resume, task captures dropped, peer receives exactly the echoes;              an event at exactly the shutdown/restart instant is a tie and accepted either way; non-trivial = timeline with a message or deadline strictly inside an inert window",
             tier.pick(2, 3)
         )
     }
@@ -686,7 +753,7 @@ impl Property for C09 {
         ]
     }
     fn required_features(&self, _tier: Tier) -> Vec<&'static str> {
-        vec!["same_instant_tie", "message_inside_inert_window", "repeated_cycle", "request_from_task", "transit_gate_route", "latency_channel", "shutdown_in_start_stage", "restarted_vs_fresh_incarnation", "shutdown_requested_inside_the_restart_event", "delayed_send_due_while_sender_is_down", "restart_of_a_module_without_start_stages"]
+        vec!["same_instant_tie", "message_inside_inert_window", "repeated_cycle", "request_from_task", "transit_gate_route", "latency_channel", "shutdown_in_start_stage", "restarted_vs_fresh_incarnation", "shutdown_requested_inside_the_restart_event", "delayed_send_due_while_sender_is_down", "restart_of_a_module_without_start_stages", "processing_element_of_a_shut_down_module"]
     }
     fn explore(&self, ctx: &mut Ctx) {
         if ctx.is_first_shard() {
@@ -728,6 +795,12 @@ impl Property for C09 {
             }
         }
         if ctx.is_first_shard() {
+            ctx.out.evaluations += 1;
+            ctx.hit("processing_element_of_a_shut_down_module");
+            match run_guarded() {
+                Ok(o) => ctx.outcome(o),
+                Err(d) => ctx.violation("violation", || json!({"probe": "guarded"}), d),
+            }
             ctx.out.evaluations += 1;
             ctx.hit("restart_of_a_module_without_start_stages");
             match run_no_stage() {
@@ -824,6 +897,9 @@ impl Property for C09 {
     fn replay(&self, case: &Value) -> Result<(), String> {
         if let Some(n) = case.get("twin_tasks") {
             return run_twin(n.as_u64().unwrap() as usize, case["restart_ms"].as_u64().unwrap()).map(|_| ());
+        }
+        if case.get("probe").and_then(Value::as_str) == Some("guarded") {
+            return run_guarded().map(|_| ());
         }
         if case.get("probe").and_then(Value::as_str) == Some("no_stage") {
             return run_no_stage().map(|_| ());
